@@ -42,3 +42,22 @@ Print Assumptions C19_regs_nonempty.
 Theorem C19_no_unreviewed_presence_test : unreviewed_changed changed_sites = [].
 Proof. vm_compute. reflexivity. Qed.
 Print Assumptions C19_no_unreviewed_presence_test.
+
+(** nothing is done to an option besides registering it and (reviewed) presence tests: no
+    NoOptDefVal / DefValue / Hidden edits, no Lookup / Set / normalisation calls in the current source *)
+Theorem C19_no_unreviewed_option_edit : unreviewed_touch flag_touch_sites = [].
+Proof. vm_compute. reflexivity. Qed.
+Print Assumptions C19_no_unreviewed_option_edit.
+
+(** "passing the default value": for an option that consumes its value (every non-Bool option as
+    registered), each way of writing `name default` on the command line leaves the default and no
+    stray positional argument; an option given a non-empty NoOptDefVal loses that *)
+Theorem C19_passing_default_is_default :
+  forall f d, parse_given ""%string f d = (d, 0).
+Proof. exact parse_given_default. Qed.
+Print Assumptions C19_passing_default_is_default.
+
+Theorem C19_noopt_breaks_space_form :
+  forall noopt d, noopt <> ""%string -> parse_given noopt LongSpace d <> (d, 0).
+Proof. exact parse_given_noopt_refuted. Qed.
+Print Assumptions C19_noopt_breaks_space_form.
